@@ -54,12 +54,15 @@ def build_one(args):
             "try:\n"
             "    inp = dassh.DASSH_Input(%r)\n"
             "    r = dassh.Reactor(inp, path=%r, write_output=False)\n"
-            "    print('TRACE' + json.dumps(axmesh.reactor_trace(r, %r)))\n"
+            "    print('TRACE' + json.dumps(axmesh.reactor_trace(\n"
+            "        r, %r, truth=%r, user=%r)))\n"
             "except SystemExit:\n"
             "    print('REJECTED')\n"
             "except MemoryError:\n"
             "    print('HANG')\n"
-        ) % (str(common.VERIF), path, str(d), label)
+        ) % (str(common.VERIF), path, str(d), label,
+             axmesh.truth_boundaries(case),
+             case.get('setup', {}).get('axial_mesh_size'))
         env = dict(os.environ, DASSH_REPO=str(common.REPO))
         try:
             p = subprocess.run([sys.executable, '-c', code], text=True,
@@ -121,6 +124,7 @@ def reactor_cases(rng, tier):
         bypass_fraction=0.02)))
     cl = scenarios.core_lattice(rng, tier)
     out.append(cl[0])
+    out.append(cl[1])     # every assembly has its own power mesh
     # one type, one flow rate, different powers, temperature-dependent
     # coolant: the requirement differs from assembly to assembly
     from harness.scenarios import fitted_type, layout_positions
